@@ -47,6 +47,8 @@ package ovsdb
 
 //@ func (TableSchema).Column
 //@ pure
+//@ ensures columnName != "_uuid" && (columnName in t.Columns) ==> result == t.Columns[columnName]
+//@ ensures columnName != "_uuid" && !(columnName in t.Columns) ==> result == nil
 //@ func (DatabaseSchema).Table
 //@ modifies nothing
 //@ ensures (tableName in schema.Tables) ==> (result != nil && fresh(result) && *result == schema.Tables[tableName])
